@@ -1,17 +1,25 @@
 package props
 
 import (
+	"context"
 	"fmt"
+	"github.com/ThreeDotsLabs/watermill/message"
+	"github.com/ThreeDotsLabs/watermill/pubsub/gochannel"
 	"math/rand"
 	"strings"
+	"sync"
 	"sync/atomic"
+	"time"
 
 	"wmverif/sched"
 	"wmverif/tr"
 )
 
 func init() {
-	Registry["C04"] = func(c *Ctx) error { return gcDrive(c, gcScenariosC04(c)) }
+	Registry["C04"] = func(c *Ctx) error {
+		gcPingPong(c)
+		return gcDrive(c, gcScenariosC04(c))
+	}
 	Registry["C05"] = func(c *Ctx) error { return gcDrive(c, gcScenariosC05(c)) }
 	Registry["C07"] = func(c *Ctx) error {
 		// the subscriber decorator on its own, at the grain of its goroutines (spec/SubDecorator.tla): in these runs Close comes
@@ -115,6 +123,14 @@ func gcScenariosC04(c *Ctx) []gcScenario {
 					}
 				}
 			}
+		}
+	}
+	// subscriptions made with a context that can never be cancelled: every delivery still has a context of its own that ends with its Ack
+	for _, per := range []bool{false, true} {
+		for _, blk := range []bool{false, true} {
+			scs = append(scs, gcScenario{Class: "uncancellable-subscribe-ctx/" + gcCfgName(per, blk, 0), Persistent: per, Blocking: blk, Buffer: 0,
+				Subs: []gcSub{{Name: "s1", Topic: "t1", Behav: "nack1", BgCtx: true}, {Name: "s2", Topic: "t1", Behav: "ack", BgCtx: true, Phase: 1}},
+				Pubs: []gcPub{{Name: "p1", Topic: "t1", N: 2}}})
 		}
 	}
 	// messages published with an empty UUID arrive with an empty UUID (every delivery, every redelivery, every replay)
@@ -265,6 +281,11 @@ func gcScenariosC05(c *Ctx) []gcScenario {
 				Subs: []gcSub{{Name: "s1", Topic: "t1", Behav: "republish:t2"}, {Name: "s2", Topic: "t2", Behav: "ack"}},
 				Pubs: []gcPub{{Name: "p1", Topic: "t1", N: 1}},
 				Gate: &gcGate{Point: "gochannel.send.wait_settle", ID: "m:1", Event: "subscribe:t2"}})
+			// ... the same while the Publish call that waits is one of several messages
+			scs = append(scs, gcScenario{Class: "blocking-republish-pending-subscribe-batch/" + gcCfgName(per, true, buf), Persistent: per, Blocking: true, Buffer: buf,
+				Subs: []gcSub{{Name: "s1", Topic: "t1", Behav: "republish:t2"}, {Name: "s2", Topic: "t2", Behav: "ack"}},
+				Pubs: []gcPub{{Name: "p1", Topic: "t1", N: 2, Batch: true}},
+				Gate: &gcGate{Point: "gochannel.send.wait_settle", ID: "m:1", Event: "subscribe:t2"}})
 			// ... or a Subscribe to the very topic whose blocking Publish is waiting for that ack
 			scs = append(scs, gcScenario{Class: "blocking-republish-pending-subscribe-same-topic/" + gcCfgName(per, true, buf), Persistent: per, Blocking: true, Buffer: buf,
 				Subs: []gcSub{{Name: "s1", Topic: "t1", Behav: "republish:t2"}, {Name: "s2", Topic: "t2", Behav: "ack"}},
@@ -346,6 +367,17 @@ func gcScenariosC07(c *Ctx) []gcScenario {
 					scs = append(scs, base(&gcGate{Point: pt, ID: "s:s2", Event: ev}, true))
 				}
 			}
+			// a subscription made with a context that cannot be cancelled, parked inside Subscribe while Close / a second Close / a Publish arrives
+			if d == 0 {
+				for _, ev := range []string{"close", "close2", "publish:t1"} {
+					for _, pt := range []string{"gochannel.subscribe.closed_checked", "gochannel.subscribe.locked", "gochannel.subscribe.registered"} {
+						sc := gcScenario{Class: fmt.Sprintf("pair-bgctx/%s/%s", pt, ev), Persistent: cf.per, Blocking: cf.blk, Buffer: 0,
+							Subs: []gcSub{{Name: "s1", Topic: "t1", Behav: "ack", BgCtx: true}, {Name: "s2", Topic: "t1", Behav: "ack", Phase: 1, BgCtx: true}},
+							Pubs: []gcPub{{Name: "p1", Topic: "t1", N: 2}}, Gate: &gcGate{Point: pt, ID: "s:s2", Event: ev}}
+						scs = append(scs, sc)
+					}
+				}
+			}
 			// an unread channel, an unsettled message: the consumer stops reading
 			for _, buf := range []int{0, 2} {
 				scs = append(scs, gcScenario{Class: fmt.Sprintf("unread/%s/dec%d", gcCfgName(cf.per, cf.blk, buf), d), Persistent: cf.per, Blocking: cf.blk, Buffer: buf,
@@ -356,6 +388,22 @@ func gcScenariosC07(c *Ctx) []gcScenario {
 					Pubs: []gcPub{{Name: "p1", Topic: "t1", N: 3}, {Name: "p2", Topic: "t1", N: 2}}, CloseAt: 1, Closers: 2})
 			}
 		}
+	}
+	// a multi-message Publish in blocking mode is waiting for the ack of a subscription that never acks; that subscription is
+	// cancelled: the call goes on with the remaining messages, the other subscription gets them all
+	for _, per := range []bool{false, true} {
+		for _, d := range []int{0, 1} {
+			scs = append(scs, gcScenario{Class: fmt.Sprintf("blocking-batch-cancel/%s/dec%d", gcCfgName(per, true, 0), d), Persistent: per, Blocking: true, Buffer: 0,
+				Subs: []gcSub{{Name: "s1", Topic: "t1", Behav: "neverack", CancelAt: 2, Decorators: d}, {Name: "s2", Topic: "t1", Behav: "ack", Decorators: d}},
+				Pubs: []gcPub{{Name: "p1", Topic: "t1", N: 3, Batch: true}}})
+		}
+	}
+	// ... and while it waits (its consumer publishes to another topic before it acks) a Subscribe or a cancel arrives
+	for _, ev := range []string{"subscribe:t2", "cancel:s3"} {
+		scs = append(scs, gcScenario{Class: "blocking-batch-republish/" + ev, Blocking: true, Buffer: 0,
+			Subs: []gcSub{{Name: "s1", Topic: "t1", Behav: "republish:t2"}, {Name: "s2", Topic: "t2", Behav: "ack"}, {Name: "s3", Topic: "t3", Behav: "ack"}},
+			Pubs: []gcPub{{Name: "p1", Topic: "t1", N: 2, Batch: true}},
+			Gate: &gcGate{Point: "gochannel.send.wait_settle", ID: "m:1", Event: ev}})
 	}
 	// several subscriptions through ONE decorator object: cancelling one of them concerns that one only
 	for i := 0; i < c.Pick(6, 60); i++ {
@@ -466,6 +514,16 @@ func gcScenariosC11(c *Ctx) []gcScenario {
 		}
 		scs = append(scs, sc)
 	}
+	// many publishers append to the log of one topic at the same time, in batches and one by one: a later subscription replays them all
+	for i := 0; i < c.Pick(12, 60); i++ {
+		sc := gcScenario{Class: "concurrent-batch-publishers", Persistent: true, Buffer: 0,
+			Subs: []gcSub{{Name: "s1", Topic: "t1", Behav: "ack", Phase: 2}}}
+		for k := 0; k < 14; k++ {
+			sc.Pubs = append(sc.Pubs, gcPub{Name: fmt.Sprintf("b%d", k+1), Topic: "t1", N: 5 + k%4, Batch: true})
+			sc.Pubs = append(sc.Pubs, gcPub{Name: fmt.Sprintf("p%d", k+1), Topic: "t1", N: 4})
+		}
+		scs = append(scs, sc)
+	}
 	// a subscription that arrives when the backlog is long already, while the publisher goes on: what is published during the
 	// replay comes once, like everything else
 	scs = append(scs, gcScenario{Class: "backlog-with-publisher", Persistent: true, Buffer: 0,
@@ -479,4 +537,58 @@ func gcScenariosC11(c *Ctx) []gcScenario {
 			Pubs: []gcPub{{Name: "p1", Topic: "t1", N: nmsg}}})
 	}
 	return scs
+}
+
+// gcPingPong: a publisher that publishes its next message the moment the previous one was acknowledged, for many rounds, on several
+// Pub/Subs at once.  Nothing is logged but an anomaly: a message published to a live subscription that does not arrive (the window of
+// a lost wake-up between "the delivery has ended" and "the next Publish" is a few instructions wide).
+func gcPingPong(c *Ctx) {
+	T := c.Trace("GoChannelTrace")
+	rounds := c.Pick(300000, 1500000)
+	const workers = 8
+	var mu sync.Mutex
+	stuck := ""
+	g := gochannel.NewGoChannel(gochannel.Config{OutputChannelBuffer: int64(c.Seed % 2 * 10)}, nil)
+	defer g.Close()
+	Parallel(workers, func(w int) {
+		topic := fmt.Sprintf("t%d", w)
+		ch, err := g.Subscribe(context.Background(), topic)
+		if err != nil {
+			return
+		}
+		sink := 0
+		for i := 0; i < rounds; i++ {
+			if i%64 == 0 {
+				mu.Lock()
+				s := stuck
+				mu.Unlock()
+				if s != "" {
+					return
+				}
+			}
+			for j := 0; j < (i%(50+w))*4; j++ { // a short, varying pause: the next Publish meets the end of the previous delivery at varying points
+				sink += j
+			}
+			if err := g.Publish(topic, message.NewMessage("pp", nil)); err != nil {
+				return
+			}
+			select {
+			case m := <-ch:
+				m.Ack()
+			case <-time.After(2 * time.Second):
+				mu.Lock()
+				stuck = fmt.Sprintf("message %d of a publish / receive / ack / publish ... sequence (worker %d) was published to a live subscription and not delivered within 2 s", i+1, w)
+				mu.Unlock()
+				return
+			}
+		}
+		_ = sink
+	})
+	r := T.NewRun("ping-pong", map[string]any{"persistent": false, "blocking": false, "buffer": 0})
+	r.Key = "ping-pong"
+	r.NonTrivial = true
+	if stuck != "" {
+		r.Emit("hung", "what", stuck)
+	}
+	c.AddStat("pingpong_rounds", rounds*workers)
 }
